@@ -46,7 +46,8 @@ RULE = ('(a) chains of 4..14 blocks with transaction counts drawn from {1,2,3,5,
         'all proofs for the new blocks verify against the new headers. Non-trivial (a) = a proof '
         'served through the per-block MerkleCache (>= 200 txs); (a\') = a cached large block '
         'replaced by a large block at the same height; '
-        '(b) = a proof request in flight across a block backup.')
+        '(b) = a proof request in flight across a block backup.' 
+        'One id_from_pos request in flight across TWO separate reorganisations of its block (first tx-hash read and the re-read each delivered 8 s late).')
 ASSUMPTIONS = c07.ASSUMPTIONS + ['padding transactions are generation-like (the merkle logic only '
                                  'sees their hashes)']
 BUDGET_S = {'quick': 150, 'thorough': 3300}
